@@ -14,6 +14,7 @@
 //   bij t=2|3 x=<idx> [y=<idx>] secret=  all 256 (t=2) / 65 536 (t=3) coefficient choices for
 //                                        secret byte 0 through the interposed random_device
 // std::random_device is interposed (common/vrng): split's coefficients are chosen by the script.
+#include <map>
 #include "common/ev.hpp"
 #include "common/vrng.hpp"
 
@@ -205,6 +206,88 @@ static void do_bij(const ev::Cmd& c) {
         .i("other_variants", static_cast<long long>(others.size())).ints("outs", outs).emit();
 }
 
+
+// ---- indep ---------------------------------------------------------------------------------
+// Secrecy needs the t-1 random coefficients of each of the 32 per-byte polynomials to be independent uniform bytes.  However split()
+// consumes its randomness, the coefficients it used can be recovered from t shares (interpolation over the real field operations);
+// over `runs` splits with different randomness no two coefficient slots may agree every time and no slot may be constant.
+template <class E, class L>
+static std::vector<std::uint8_t> interpolate(const std::vector<std::uint8_t>& xs, const std::vector<std::uint8_t>& ys, const E& exp, const L& log) {
+    const size_t t = xs.size();
+    std::vector<std::uint8_t> master(t + 1, 0);          // M(x) = prod (x + x_j), coefficients low to high
+    master[0] = 1;
+    size_t deg = 0;
+    for (size_t j = 0; j < t; ++j) {
+        std::vector<std::uint8_t> next(t + 1, 0);
+        for (size_t k = 0; k <= deg; ++k) {
+            next[k + 1] = gf_add(next[k + 1], master[k]);
+            next[k] = gf_add(next[k], gf_mul(master[k], xs[j], exp, log));
+        }
+        master = next; ++deg;
+    }
+    std::vector<std::uint8_t> coeff(t, 0);
+    for (size_t i = 0; i < t; ++i) {
+        // N_i(x) = M(x) / (x + x_i) by synthetic division (high to low)
+        std::vector<std::uint8_t> q(t, 0);
+        std::uint8_t carry = 0;
+        for (size_t k = t; k-- > 0;) { carry = gf_add(master[k + 1], gf_mul(carry, xs[i], exp, log)); q[k] = carry; }
+        std::uint8_t denom = 1;
+        for (size_t j = 0; j < t; ++j) if (j != i) denom = gf_mul(denom, gf_add(xs[i], xs[j]), exp, log);
+        const auto scale = static_cast<std::uint8_t>(real_div(ys[i], denom, exp, log));
+        for (size_t k = 0; k < t; ++k) coeff[k] = gf_add(coeff[k], gf_mul(q[k], scale, exp, log));
+    }
+    return coeff;
+}
+static void do_indep(const ev::Cmd& c) {
+    const long t = c.i("t"), n = c.i("n", t), runs = c.i("runs", 8);
+    const auto secret = hex32(c.s("secret"));
+    const auto exp = build_exp_table();
+    const auto log = build_log_table(exp);
+    const size_t slots = static_cast<size_t>(32 * (t - 1));
+    std::vector<std::vector<std::uint8_t>> seen(static_cast<size_t>(runs));     // per run: all coefficient slots (byte-major, degree 1..t-1)
+    std::string outcome = "ok";
+    long wrong_secret = 0;
+    for (long r = 0; r < runs && outcome == "ok"; ++r) {
+        vrng::seed(static_cast<std::uint64_t>(c.i("cseed", 1)) * 1000003u + static_cast<std::uint64_t>(r) * 7919u + 17u);
+        vrng::script({});
+        std::vector<ShamirShare> sh;
+        begin("split", t, n);
+        outcome = guarded([&] { sh = Shamir::split(secret, static_cast<std::uint8_t>(t), static_cast<std::uint8_t>(n)); });
+        if (outcome != "ok") break;
+        if (static_cast<long>(sh.size()) < t) { outcome = "short"; break; }
+        std::vector<std::uint8_t> xs;
+        for (long i = 0; i < t; ++i) xs.push_back(sh[static_cast<size_t>(i)].index);
+        auto& row = seen[static_cast<size_t>(r)];
+        for (int byte = 0; byte < 32; ++byte) {
+            std::vector<std::uint8_t> ys;
+            for (long i = 0; i < t; ++i) ys.push_back(sh[static_cast<size_t>(i)].value[static_cast<size_t>(byte)]);
+            const auto co = interpolate(xs, ys, exp, log);
+            if (co[0] != secret[static_cast<size_t>(byte)]) ++wrong_secret;
+            for (long d = 1; d < t; ++d) row.push_back(co[static_cast<size_t>(d)]);
+        }
+    }
+    long long dup = 0, constant = 0;
+    long long firstdup_a = -1, firstdup_b = -1;
+    if (outcome == "ok" && slots > 0) {
+        for (size_t a = 0; a < slots; ++a) {
+            bool same = true;
+            for (long r = 1; r < runs && same; ++r) same = seen[static_cast<size_t>(r)][a] == seen[0][a];
+            if (same) ++constant;
+        }
+        // slots that agree in every run: bucket by the tuple of their values over the runs
+        std::map<std::string, size_t> first;
+        for (size_t a = 0; a < slots; ++a) {
+            std::string key;
+            for (long r = 0; r < runs; ++r) key.push_back(static_cast<char>(seen[static_cast<size_t>(r)][a]));
+            auto it = first.find(key);
+            if (it == first.end()) first.emplace(key, a);
+            else { ++dup; if (firstdup_a < 0) { firstdup_a = static_cast<long long>(it->second); firstdup_b = static_cast<long long>(a); } }
+        }
+    }
+    ev::Ev("indep").i("t", t).i("n", n).i("runs", runs).s("outcome", outcome).i("slots", static_cast<long long>(slots)).i("dup", dup).i("constant", constant)
+        .i("wrong_secret", wrong_secret).i("dup_a", firstdup_a).i("dup_b", firstdup_b).emit();
+}
+
 int main(int argc, char** argv) {
     if (argc < 3) { std::fprintf(stderr, "usage: shamir <script> <trace>\n"); return 2; }
     std::ifstream in(argv[1]);
@@ -227,7 +310,7 @@ int main(int argc, char** argv) {
         const long start = std::ftell(ev::out());
         const pid_t pid = fork();
         if (pid < 0) { std::perror("fork"); return 2; }
-        const long budget = (c.op == "bij" || c.op == "gf") ? g_watchdog_s * 10 : g_watchdog_s;
+        const long budget = (c.op == "bij" || c.op == "gf" || c.op == "indep") ? g_watchdog_s * 10 : g_watchdog_s;
         if (pid == 0) {
             // watchdog: CPU seconds (a runaway loop burns CPU; robust against a loaded machine) plus a generous
             // wall-clock alarm; address-space limit so that a runaway allocation ends in bad_alloc, not in swap
@@ -241,6 +324,7 @@ int main(int argc, char** argv) {
             if (c.op == "gf") do_gf();
             else if (c.op == "case") do_case(c);
             else if (c.op == "bij") do_bij(c);
+            else if (c.op == "indep") do_indep(c);
             std::fflush(ev::out());
             _exit(0);
         }
